@@ -30,6 +30,19 @@ claimed = {
    note=(TB + "Assumed: register files are indexed within the per-wavefront allocation (offset preconditions taken from the dispatcher, proved under C09 when claimed); "
          "the timing register file component is modelled by the cell arrays its Read/Write contract states. One genuine defect repaired (VCCHI write mask)."),
    design="5 (C07)", technique="deductive verification: WP-style VC generation over go/ssa + SMT (two implementations against one abstract view)"),
+ "C12": dict(
+   text=("Step obligations of the driver's command processing: a queue's next command is started only when the queue is not already running one and is not empty (processNewCommandFromCmdQueue), and on a kernel-launch "
+         "response the command leaves its queue, and the queue becomes idle, only when the last request the command was split into has been answered (processLaunchKernelReturn). "
+         "Host-thread interleavings (Enqueue/Drain wake-ups, engine pause/continue) and the other response handlers are outside these contracts."),
+   note=(TB + "Command bookkeeping behind the Command interface, the response-to-command lookup and the queue's Dequeue/NumCommand are external (extern declarations; GetReqs/NumCommand as pure accessors read once). "
+         "Goroutine schedules cannot be decided by this technique: the concurrency half of C12 is not claimed."),
+   design="5 (C12)", technique="deductive verification: WP-style VC generation over go/ssa + SMT (call-site and return obligations on the step functions)"),
+ "C19": dict(
+   text=("Step contracts of the page migration controller: it stays busy until the control port has accepted the completion response (sendMigrationCompleteRspToCtrlPort, processWriteDoneRspFromMemCtrl: "
+         "the busy flag is untouched while write acknowledgements are counted, the completion is built exactly on the last one), and every migrated chunk is written to the memory controller that owns that chunk's own address "
+         "(site obligations in processDataPullRsp). Request splitting arithmetic, the driver's one-page-at-a-time gate and the CP forwarding are not yet under contract."),
+   note=(TB + "akita ports, the simulation clock and the address-to-port mapper (assumed a pure function of the address) are external."),
+   design="5 (C19)", technique="deductive verification: WP-style VC generation over go/ssa + SMT (pre/postconditions and call-site obligations on the step functions)"),
  "C13": dict(
    text=("The header and descriptor parsers (isV2V3Header, parseV2V3Header, parseV5KernelDescriptor, newKernelCodeObjectFromEntireTextSection) are verified against the "
          "amd_kernel_code_t and AMDHSA kernel-descriptor layouts for all byte strings: every loaded field equals the little-endian field at its offset, the 256-byte header is "
